@@ -177,7 +177,7 @@ def run(ctx):
     seen, groups, ncases, chosen = set(), {}, 0, {}
     wit = ("WitnessSkipped",)          # further witnesses are ASSUMEs inside RebaseGen
     for pi, (consts, frac) in enumerate(plans):
-        cases = table.generate(ctx, "RebaseGen", consts, label="RebaseGen %s" % consts, workers=8,
+        cases = table.generate(ctx, "RebaseGen", consts, label="RebaseGen %s" % consts, workers=4,
                                witnesses=wit if pi == 0 else ())
         if not cases:
             ctx.machinery("RebaseGen produced no cases")
